@@ -2,7 +2,7 @@
 from . import c07_c08_flow as flow
 
 MODULE = "StorageModel.Properties.C07"
-THEOREMS = ["table_is_expected", "delivery_is_expected", "raised_only_grows", "op_error_surfaces",
+THEOREMS = ["table_is_expected", "delivery_is_expected", "holder_plumbing_is_expected", "raised_only_grows", "op_error_surfaces",
             "op_failure_kind_surfaces", "no_false_success", "no_false_success_any_fault", "tx_atomic",
             "tx_error_surfaces", "caller_error_surfaces", "pre_commit_error_surfaces",
             "rejected_operation_surfaces", "tx_raised_surfaces", "tx_no_false_success", "history_refines_spec"]
@@ -10,6 +10,7 @@ THEOREMS = ["table_is_expected", "delivery_is_expected", "raised_only_grows", "o
 TABLE_OBLIGATIONS = [
     "table_is_expected (Generated/CrudReturns.lean: return paths of Create/Update/DeleteById/DeleteWhere, processDeleteConstraints, fireParentEvent, fireEvents, processPreCommit regenerated from boltz/store_crud.go and boltz/store.go)",
     "delivery_is_expected (Generated/CrudReturns.lean: post-commit work is started through tx.OnCommit only; shape of the listener adapters; from boltz/db.go, tx_context.go, store.go, store_crud.go)",
+    "holder_plumbing_is_expected (Generated/CrudReturns.lean holderFlags + table field persistSharesHolder: newIndexingContext chains the parent store's context with the same error holder; IndexingContext.ProcessBeforeUpdate/AfterUpdate/BeforeDelete run the parent context first and their own constraints only while the holder is empty; PersistContext.GetParentContext shares the holder; ProceedWithSet writes nothing once the holder has an error; stage order in Create/Update/processDeleteConstraints; from boltz/indexes.go, base.go, typed_bucket.go, store_crud.go)",
 ]
 
 
@@ -24,15 +25,19 @@ MATCHERS = {}
 
 RULE = ("histories of 1-4 transactions (Db.Update / Db.Batch, fresh or reused MutateContext) over a parent store "
         "(unique index, set index, nullable fk index with restrict) and a child store, listeners of every "
-        "registration style on both; (a) every body of one operation (12 operations: create/update/delete/"
-        "deleteWhere through either store) x one failure of every kind (caller error, failing pre-commit action, "
-        "duplicate, missing fk target, null name, empty role = bucket name required, 32768-byte role and 32769-byte "
-        "name = key too large, blank id, existing id, missing id, referenced entity, veto by an untyped / typed "
-        "constraint on the parent or the child flow, injected FillEntity / PersistEntity error at the n-th call, "
-        "unparsable query) x Update and Batch, exhaustively; thorough tier also every body of two operations x "
-        "every position x every kind; (b) sampled bodies of 2-5 operations with one failure at a random position; "
-        "(c) random histories incl. nested Update calls, swallowed errors, reused contexts. Non-trivial = at least "
-        "one transaction of the history fails; distinct = distinct case line")
+        "registration style on both; (a) every body of one operation (16 operations: create/update/delete/"
+        "deleteWhere through either store, incl. child data created over an existing plain parent entity) x one "
+        "failure of every kind (caller error, failing pre-commit action, duplicate, missing fk target, null name, "
+        "empty role = bucket name required, 32768-byte role and 32769-byte name = key too large, blank id, existing "
+        "id, missing id, referenced entity, veto by an untyped / typed entity constraint on the parent or the child "
+        "flow as plain error or RecordNotFoundError, index-stage veto by a custom boltz.Constraint registered with "
+        "AddConstraint on the parent or on the child store in ProcessBeforeUpdate / ProcessAfterUpdate / "
+        "ProcessBeforeDelete as plain error or RecordNotFoundError, injected FillEntity / PersistEntity error at "
+        "the n-th call, unparsable query) x Update and Batch, exhaustively; thorough tier also every body of two "
+        "operations x every position x every kind; (b) sampled bodies of 2-5 operations with one failure at a "
+        "random position; (c) random histories incl. nested Update calls, swallowed errors, reused contexts, up to "
+        "2 custom index-stage constraints per store. Non-trivial = at least one transaction of the history fails; "
+        "distinct = distinct case line")
 
 
 def run(ctx, replay_cases=None):
@@ -40,7 +45,7 @@ def run(ctx, replay_cases=None):
         "bbolt rolls a transaction back when its function returns an error and runs OnCommit handlers only after a successful commit, in registration order (modelled; the harness compares the full boltz.Traverse leaf dump before and after every failed transaction and the callback logs)",
         "bbolt Batch re-runs a failing function alone (modelled as a second attempt; observed through the body run counter)",
         "the entity table determines every index bucket (C03/C04); the harness compares the leaf dump of the real database with the rendering of the model's table after every committed transaction",
-        "ids created through the child store are never created through the parent store before (child data over an existing plain parent entity is C03/C15's subject)",
+        "custom index-stage constraints only log their calls and call ctx.ErrHolder.SetError for the listed (stage, id) pairs; errorz.ErrorHolderImpl.SetError keeps the first error (library outside the repository, exercised by the correspondence)",
         "string pools are ASCII; long values are runs of one byte",
     ]
     return flow.run_flow(ctx, "c07", MODULE, THEOREMS, MATCHERS, nontrivial, RULE,
